@@ -144,8 +144,10 @@ package delegation
 //@ ghost func sealedNoded(t *Token, k crypto.PrivKey) datamodel.Node
 //@ // the model a token is sealed from: every field of the token, printed (identifiers, command), converted to whole seconds
 //@ // (time bounds) or carried over (policy node, nonce, metadata)
+//@ // input validity for sealing: a token as built by the constructors or the decoder (non-nil metadata, issuer in generated form, well-formed policy) and a key
+//@ pure func canSeal(t *Token, k crypto.PrivKey) bool = t != nil && k != nil && t.meta != nil && wfDID(t.issuer) && polWF(t.policy)
 //@ func (*Token).toIPLD
-//@   requires t != nil && privKey != nil && t.meta != nil && wfDID(t.issuer) && polWF(t.policy)
+//@   requires canSeal(t, privKey)
 //@   assumes result1 == nil ==> result0 == sealedNoded(t, privKey)
 //@   ensures result1 == nil ==> result0 != nil
 //@   ensures [C07] model: result1 == nil ==> sealedModel(result0) is *tokenPayloadModel && sealedModel(result0).(*tokenPayloadModel) != nil && modelOf(sealedModel(result0).(*tokenPayloadModel), t)
@@ -159,19 +161,19 @@ package delegation
 //@ pure func polWF(p policy.Policy) bool = 0 <= stmtsSize(p) && (forall j int :: 0 <= j && j < len(p) ==> p[j] != nil && wfStmt(p[j]) && 0 <= stmtSize(p[j]) && stmtSize(p[j]) < stmtsSize(p))
 //@ pure func polShape(n datamodel.Node, p policy.Policy) bool = n != nil && nodeKind(n) == datamodel.Kind_List && listLen(n) == len(p) && (forall j int :: 0 <= j && j < len(p) ==> nodeKind(listElem(n, j)) == datamodel.Kind_List && nodeStr(listElem(listElem(n, j), 0)) == stmtKind(p[j]))
 //@ func (*Token).Encode
-//@   requires t != nil
+//@   requires canSeal(t, privKey)
 //@   ensures [C08,C18] bytes: result1 == nil ==> bytes(result0) == encodeWith(encFn, sealedNoded(t, privKey))
 //@ func (*Token).ToSealed
-//@   requires t != nil
+//@   requires canSeal(t, privKey)
 //@   ensures [C08] cid: result2 == nil ==> result1 == ucanCid(bytes(result0))
 //@   ensures [C08,C18] bytes: result2 == nil ==> bytes(result0) == encodeWith(dagcbor.Encode, sealedNoded(t, privKey))
 //@ func (*Token).EncodeWriter
 //@   inline
-//@   requires t != nil && w != nil
+//@   requires canSeal(t, privKey) && w != nil
 //@   ensures [C18] bytes: result == nil ==> written(w) == old(written(w)) ++ encodeWith(encFn, sealedNoded(t, privKey)) && wfailed(w) == old(wfailed(w))
 //@   assigns written(w), wfailed(w)
 //@ func (*Token).ToSealedWriter
-//@   requires t != nil && w != nil
+//@   requires canSeal(t, privKey) && w != nil
 //@   use cid_sum_sha256
 //@   ensures [C18] bytes: result1 == nil ==> written(w) == old(written(w)) ++ encodeWith(dagcbor.Encode, sealedNoded(t, privKey)) && wfailed(w) == old(wfailed(w))
 //@   ensures [C08,C18] cid: result1 == nil ==> result0 == ucanCid(encodeWith(dagcbor.Encode, sealedNoded(t, privKey)))
